@@ -8,10 +8,6 @@ TA = "amr_kitchen.taste.taste.Taster."
 PCK = "amr_kitchen.plotfile_cooker.PlotfileCooker."
 
 
-@lib("multiprocessing", "Pool")
-def mp_pool(ex, args, kw):
-    ex.ctx.note("pool-created", args, kw)
-    return Record("Pool")
 
 
 class RaiseError(Task):
